@@ -119,7 +119,22 @@ struct DirCase {
     stale: bool,
 }
 
-fn check_dir(vm: &dyn Vm, vol: RawVolume, snap: &Snap, path: &str, loc: DirLoc, parent_loc: Option<DirLoc>, rng: &mut Rng, probes: &[ShortFileName], rep: &mut Report, case: &dyn Fn() -> J) -> Result<bool, E> {
+fn check_dir(vm: &dyn Vm, vol: RawVolume, snap: &Snap, path: &str, loc: DirLoc, parent_loc: Option<DirLoc>, rng: &mut Rng, probes: &[ShortFileName], rep: &mut Report, case: &dyn Fn() -> J, max_ballast: usize) -> Result<bool, E> {
+    // other directory handles held open meanwhile (opened first, so they sit in front of `d` in
+    // the library's table): what a handle designates must not depend on its neighbours
+    let mut held: Vec<RawDirectory> = Vec::new();
+    let ballast = rng.usize_below(max_ballast + 1);
+    for _ in 0..ballast {
+        held.push(vm.open_root_dir(Fl::Raw, vol)?);
+    }
+    let r = check_dir_inner(vm, vol, snap, path, loc, parent_loc, rng, probes, rep, case);
+    for h in held {
+        let _ = vm.close_dir(Fl::Raw, h);
+    }
+    r
+}
+
+fn check_dir_inner(vm: &dyn Vm, vol: RawVolume, snap: &Snap, path: &str, loc: DirLoc, parent_loc: Option<DirLoc>, rng: &mut Rng, probes: &[ShortFileName], rep: &mut Report, case: &dyn Fn() -> J) -> Result<bool, E> {
     let d = fsx::open_path(vm, vol, path)?;
     let want = expected_listing(snap, loc);
     let fl = *rng.pick(&[Fl::Raw, Fl::Wrap]);
@@ -269,6 +284,25 @@ fn check_dir(vm: &dyn Vm, vol: RawVolume, snap: &Snap, path: &str, loc: DirLoc, 
                 break;
             }
         }
+        // "." by name designates the directory itself (also in the root, which has no such entry)
+        if !bad {
+            match vm.open_dir(fl, d, Nm::Str(".")) {
+                Ok(nd) => {
+                    let mut got3 = Vec::new();
+                    vm.iterate(Fl::Raw, nd, &mut |e| got3.push(fsx::view(e)))?;
+                    rep.count("open_dir_calls", 1);
+                    if let Some((field, msg)) = diff_listing(&got3, &want) {
+                        rep.violate(v("C06.opendir", "open_dir", "leads elsewhere (dot by name)", format!("{}: open_dir(\".\") lists differently from the directory itself: {} {}", if path.is_empty() { "<root>" } else { path }, field, msg), case()));
+                        bad = true;
+                    }
+                    vm.close_dir(Fl::Raw, nd)?;
+                }
+                Err(e) => {
+                    rep.violate(v("C06.opendir", "open_dir", "directory not opened", format!("{}: open_dir(\".\") failed with {:?}", path, e), case()));
+                    bad = true;
+                }
+            }
+        }
         // absent directory
         if !bad {
             match vm.open_dir(fl, d, Nm::Str("NOSUCH.DIR")) {
@@ -350,6 +384,7 @@ fn one_case(ctx: &Ctx, i: usize, rep: &mut Report) {
     let case = || J::obj().set("geometry", g.describe()).set("case_index", i);
     let limits = *rng.pick(&[(4usize, 4usize, 1usize), (8, 8, 4), (2, 2, 1), (3, 5, 2)]);
     let m = fsx::mount_image(img.clone(), limits, 5000);
+    let max_ballast = limits.0.saturating_sub(2);
     let res = report::catch(|| -> Result<bool, E> {
         let vol = m.vm.open_volume(Fl::Raw, g.part_slot)?;
         // probe names
@@ -363,7 +398,7 @@ fn one_case(ctx: &Ctx, i: usize, rep: &mut Report) {
             })?;
             m.vm.close_dir(Fl::Raw, pd)?;
         }
-        let mut bad = check_dir(&*m.vm, vol, &snap, "", snap.root_loc(), None, &mut rng, &probes, rep, &case)?;
+        let mut bad = check_dir(&*m.vm, vol, &snap, "", snap.root_loc(), None, &mut rng, &probes, rep, &case, max_ballast)?;
         rep.evaluations += 1;
         // every directory in the tree (generated ones and their children)
         for n in w.nodes.iter().filter(|n| n.is_dir) {
@@ -376,7 +411,7 @@ fn one_case(ctx: &Ctx, i: usize, rep: &mut Report) {
             if !snap.vol.in_range(n.start) {
                 continue;
             }
-            bad |= check_dir(&*m.vm, vol, &snap, &n.path, DirLoc::Cluster(n.start), Some(n.parent_dir), &mut rng, &probes, rep, &case)?;
+            bad |= check_dir(&*m.vm, vol, &snap, &n.path, DirLoc::Cluster(n.start), Some(n.parent_dir), &mut rng, &probes, rep, &case, max_ballast)?;
             rep.evaluations += 1;
             rep.distinct.insert(crate::prng::mix(&[g.hash(), crate::prng::hash_bytes(n.path.as_bytes()), i as u64]));
         }
@@ -417,7 +452,7 @@ fn one_case(ctx: &Ctx, i: usize, rep: &mut Report) {
             let w2 = snap2.walk();
             let case2 = || J::obj().set("geometry", g.describe()).set("case_index", i).set("after_history_in", dc.path.clone());
             if let Some(n) = w2.nodes.iter().find(|n| n.path == dc.path) {
-                bad |= check_dir(&*m.vm, vol, &snap2, &dc.path, DirLoc::Cluster(n.start), Some(n.parent_dir), &mut rng, &[], rep, &case2)?;
+                bad |= check_dir(&*m.vm, vol, &snap2, &dc.path, DirLoc::Cluster(n.start), Some(n.parent_dir), &mut rng, &[], rep, &case2, max_ballast)?;
                 rep.evaluations += 1;
                 rep.count("directories_rechecked_after_api_history", 1);
             }
